@@ -1,6 +1,7 @@
 import CoolerModel.Model.Create
 import CoolerModel.Props.C02Core
 import CoolerModel.Props.C03
+import CoolerModel.Props.C06
 /-!
 # C01 — create-then-read round trip returns exactly the matrix that was stored
 
@@ -246,5 +247,122 @@ theorem checkedWrite_refuses_iff (signed : Bool) (bits : Nat) (vs : List Int) :
 /-- non-vacuity: 3 000 000 000 fits uint32 and not int32 (where it would be stored as 2 147 483 647) -/
 example : fitsInt false 32 3000000000 = true ∧ fitsInt true 32 3000000000 = false ∧
     clipInt true 32 3000000000 = 2147483647 ∧ clipInt false 32 (-4) = 0 := by decide
+
+/-! ### iterable of chunks with `ordered` omitted (the default): the external-sort path
+
+`create_cooler(uri, bins, <iterable>)` without `ordered=True` goes through `create_from_unordered`
+(one merge pass, or two when there are more chunks than `max_merge`).  For the inputs of C01 — records
+with distinct keys — that path stores exactly what the data-frame form stores; for a stream that is
+already sorted it stores the stream itself.  Whatever the chunk sizes, `max_merge`, the grouping of
+the first pass (`edges`) and the merge buffer (C07.merger_eq_spec: any epoch partition). -/
+
+/-- **unordered_eq_frame**: chunks whose records have distinct keys, in ANY order, one or two merge
+passes over any valid grouping: the stored table is the key-sorted input. -/
+theorem unordered_eq_frame (chunks : List Pixels) (edges : Option (List Nat))
+    (he : ∀ es, edges = some es → Unordered.validEdges chunks.length es = true)
+    (hk : keysNodup chunks.flatten) :
+    Unordered.createFromUnordered chunks edges = sortByKey chunks.flatten := by
+  rw [C06.unordered_eq_aggregate chunks edges he]
+  unfold Unordered.aggregateAll
+  have h := sortByKey_strict chunks.flatten hk
+  rw [← groupSum_perm h.2]
+  exact groupSum_of_sorted _ h.1
+
+/-- **unordered_roundtrip**: a sorted stream given without `ordered=True` is stored as it is: every
+input pixel once with its value, nothing else, nothing dropped with a group of the first pass. -/
+theorem unordered_roundtrip (chunks : List Pixels) (edges : Option (List Nat))
+    (he : ∀ es, edges = some es → Unordered.validEdges chunks.length es = true)
+    (hs : StrictSorted chunks.flatten) :
+    Unordered.createFromUnordered chunks edges = chunks.flatten := by
+  rw [C06.unordered_eq_aggregate chunks edges he]
+  exact groupSum_of_sorted _ hs
+
+/-- non-vacuity: five chunks (one empty), two passes over the groups [0,2) [2,5) -/
+example : Unordered.validEdges 5 [0, 2, 5] = true ∧
+    Unordered.createFromUnordered [[⟨0, 0, 1⟩], [⟨0, 2, 2⟩, ⟨1, 1, 3⟩], [], [⟨1, 2, 4⟩], [⟨2, 2, 5⟩]] (some [0, 2, 5])
+      = [⟨0, 0, 1⟩, ⟨0, 2, 2⟩, ⟨1, 1, 3⟩, ⟨1, 2, 4⟩, ⟨2, 2, 5⟩] := by decide
+
+/-- a grouping that stops short of the last chunk (edges of fixed step that do not reach `n`) is NOT a
+valid grouping, and loses the records of the trailing chunks -/
+example : Unordered.validEdges 5 [0, 2, 4] = false ∧
+    Unordered.createFromUnordered [[⟨0, 0, 1⟩], [⟨0, 2, 2⟩], [⟨1, 1, 3⟩], [⟨1, 2, 4⟩], [⟨2, 2, 5⟩]] (some [0, 2, 4])
+      = [⟨0, 0, 1⟩, ⟨0, 2, 2⟩, ⟨1, 1, 3⟩, ⟨1, 2, 4⟩] := by decide
+
+/-! ### windows of a large store
+
+The full-matrix clause read on a sub-window: the window of the symmetric completion only depends on
+the records that touch the window (their row or their column inside it), so the specification of a
+window of a store with millions of records can be evaluated on those records alone. -/
+
+/-- a record can contribute to window `b` of the full matrix (directly or mirrored) -/
+def touches (b : Box) (p : Px) : Bool := inBox b p || inBox b p.swap
+
+/-- **specWindow_local**: the window of the full matrix is the window of the records touching it. -/
+theorem specWindow_local (symm : Bool) (ps : Pixels) (b : Box) :
+    specWindow symm (ps.filter (touches b)) b = specWindow symm ps b := by
+  unfold specWindow
+  cases symm with
+  | false =>
+    simp only [Bool.false_eq_true, if_false, List.filter_filter]
+    apply List.filter_congr
+    intro p _
+    simp only [touches]
+    cases inBox b p <;> simp
+  | true =>
+    simp only [if_true, symCompletion, List.filter_append, List.filter_filter, List.filter_map]
+    congr 1
+    · apply List.filter_congr
+      intro p _
+      simp only [touches]
+      cases inBox b p <;> simp
+    · congr 1
+      apply List.filter_congr
+      intro p _
+      simp only [touches, Function.comp]
+      cases inBox b p.swap <;> simp
+
+theorem find?_pred_congr {α} (l : List α) (p q : α → Bool) (h : ∀ a ∈ l, p a = q a) : l.find? p = l.find? q := by
+  induction l with
+  | nil => rfl
+  | cons x rest ih =>
+    simp only [List.find?_cons, h x (List.mem_cons_self)]
+    rw [ih (fun a ha => h a (List.mem_cons_of_mem _ ha))]
+
+/-- **specDense_local**: likewise for the dense form of the window (cell by cell). -/
+theorem specDense_local (symm : Bool) (ps : Pixels) (b : Box) :
+    specDense symm (ps.filter (touches b)) b = specDense symm ps b := by
+  unfold specDense
+  apply List.map_congr_left
+  intro r hr
+  apply List.map_congr_left
+  intro c hc
+  have hr' := List.mem_range.mp hr
+  have hc' := List.mem_range.mp hc
+  unfold fullValue
+  simp only [List.find?_filter]
+  have key : ∀ (k1 k2 : Nat), ((k1 = b.i0 + r ∧ k2 = b.j0 + c) ∨ (k1 = b.j0 + c ∧ k2 = b.i0 + r)) →
+      List.find? (fun a => decide (touches b a = true ∧ (a.i == k1 && a.j == k2) = true)) ps
+        = List.find? (fun a => a.i == k1 && a.j == k2) ps := by
+    intro k1 k2 hk
+    apply find?_pred_congr
+    intro a _
+    by_cases hm : (a.i == k1 && a.j == k2) = true
+    · rw [hm]
+      simp only [Bool.and_eq_true, beq_iff_eq] at hm
+      simp only [touches, Bool.or_eq_true, C03.inBox_iff, C03.swap_i, C03.swap_j, and_true, decide_eq_true_eq]
+      omega
+    · simp only [Bool.not_eq_true] at hm
+      rw [hm]
+      simp
+  cases symm with
+  | false =>
+    simp only [Bool.false_eq_true, if_false]
+    rw [key _ _ (Or.inl ⟨rfl, rfl⟩)]
+  | true =>
+    simp only [if_true]
+    rw [key _ _ (by omega)]
+
+example : specWindow true [⟨0, 1, 5⟩, ⟨0, 7, 2⟩, ⟨1, 1, 3⟩, ⟨4, 6, 9⟩] ⟨1, 2, 0, 2⟩ = [⟨1, 1, 3⟩, ⟨1, 0, 5⟩] ∧
+    [⟨0, 1, 5⟩, ⟨0, 7, 2⟩, ⟨1, 1, 3⟩, ⟨4, 6, 9⟩].filter (touches ⟨1, 2, 0, 2⟩) = [⟨0, 1, 5⟩, ⟨1, 1, 3⟩] := by decide
 
 end Cooler.C01
